@@ -67,7 +67,9 @@ def _replay_surface(data):
         if err > 0.05:
             bad.append("marching_cubes(%s): vertices are not on the level set in the grid's coordinates (max |f-level| = %.3f)" % (direction, err))
         vol = np.einsum("ij,ij->i", v[fa[:, 0]], np.cross(v[fa[:, 1]], v[fa[:, 2]])).sum() / 6
-        if (vol > 0) != (direction == "descent"):
+        # convention (as in scikit-image): 'descent' meshes follow the left-hand rule, i.e. negative signed volume by the usual
+        # right-hand formula in the returned coordinates; 'ascent' is the mirror image
+        if (vol < 0) != (direction == "descent"):
             bad.append("marching_cubes(%s): orientation does not follow the gradient direction (signed volume %.3f)" % (direction, vol))
     Z = np.array([8, 1, 1])
     P = np.array([[3.0, -2.0, 1.12], [3.0, -1.24, 0.52], [3.0, -2.76, 0.52]])
@@ -76,6 +78,20 @@ def _replay_surface(data):
     why = _mesh_ok(iso.vertices, iso.faces)
     if why:
         bad.append("promolecule surface: %s" % why)
+    vv, ff = np.asarray(iso.vertices, float), np.asarray(iso.faces)
+    if np.einsum("ij,ij->i", vv[ff[:, 0]] - P[0], np.cross(vv[ff[:, 1]] - P[0], vv[ff[:, 2]] - P[0])).sum() <= 0:
+        bad.append("promolecule surface is wound inside out (negative signed volume)")
+    from chmpy import StockholderWeight
+    from chmpy.surface import stockholder_weight_isosurface as swi
+    shifts = [np.array(v, float) * 3.0 for v in ((1, 0, 0), (-1, 0, 0), (0, 1, 0), (0, -1, 0), (0, 0, 1), (0, 0, -1), (1, 1, 1), (-1, -1, -1), (1, -1, 1), (-1, 1, -1), (1, 1, -1), (-1, -1, 1), (1, -1, -1), (-1, 1, 1))]
+    sw = StockholderWeight.from_arrays(Z, P, np.tile(Z, len(shifts)), np.vstack([P + sh for sh in shifts]))     # the molecule enclosed by copies of itself
+    isw = swi(sw, sep=0.4, isovalue=0.5, smoothing=None) if True else None
+    vs, fs = np.asarray(isw.vertices, float), np.asarray(isw.faces)
+    whys = _mesh_ok(vs, fs)
+    if whys:
+        bad.append("stockholder surface: %s" % whys)
+    if np.einsum("ij,ij->i", vs[fs[:, 0]] - P[0], np.cross(vs[fs[:, 1]] - P[0], vs[fs[:, 2]] - P[0])).sum() <= 0:
+        bad.append("stockholder (Hirshfeld) surface is wound inside out (negative signed volume)")
     rho = pro.rho(iso.vertices)
     if np.abs(rho - 0.002).max() > 0.002:
         bad.append("promolecule surface: vertices are not on the isovalue in the molecule's frame (rho in [%.4g, %.4g])" % (rho.min(), rho.max()))
@@ -161,6 +177,18 @@ def run(ctx):
     ctx.stub("Hirshfeld (stockholder) surfaces of molecules in crystals take the exterior atoms from Crystal.molecule_environment: that it returns every atom within the radius is C03's lemma A, run here as a dependency section")
     secs += _c03.dependency_sections({"molecule_environment"})
     ctx.parallel_sections([(n_, (lambda c, f=f_, n_=n_: (f(c), c.note("section %s took %.1fs" % (n_, time.time() - t0)))[0])) for n_, f_ in secs])
+
+
+def _kernel_handedness():
+    """+1 if the compiled mesher's raw triangles enclose positive signed volume, in its own vertex frame, for a blob that is high inside"""
+    from chmpy.mc import _mc_lewiner as so
+    import chmpy.mc._mc as realmc
+    g = np.stack(np.meshgrid(np.arange(9.0), np.arange(10.0), np.arange(11.0), indexing="ij"))
+    f = np.exp(-(((g[0] - 4.2) ** 2 + (g[1] - 4.6) ** 2 + (g[2] - 5.1) ** 2)) / 6.0).astype(np.float32)
+    v, fa, n, val = so.marching_cubes(f, 0.5, realmc._get_lookup_tables(), 1, 0)
+    v, fa = np.asarray(v, float), np.asarray(fa).reshape(-1, 3)
+    vol = np.einsum("ij,ij->i", v[fa[:, 0]], np.cross(v[fa[:, 1]], v[fa[:, 2]])).sum() / 6
+    return 1 if vol > 0 else -1
 
 
 def _edges(shape):
@@ -295,6 +323,23 @@ def part_glue(ctx):
         ctx.record("%s: sampling grid spans the density's bounding box in every axis (box with three different extents)" % fname, "holds" if span_ok else "counterexample", nontrivial=True)
         if not span_ok:
             bad.append(fname + " (grid does not span the box)")
+        # orientation: the mesher's triangles (as it returns them, in its (x, y, z) = (axis2, axis1, axis0) index frame) have a
+        # fixed handedness, measured on the compiled module; the map to user coordinates has the determinant of the grid step
+        # vectors in that order, and the faces are either kept or reversed: for a field that is high inside (density, weight)
+        # the product must be outward
+        e0 = pts[np.ravel_multi_index((1, 0, 0), shp)] - pts[0]
+        e1 = pts[np.ravel_multi_index((0, 1, 0), shp)] - pts[0]
+        e2 = pts[np.ravel_multi_index((0, 0, 1), shp)] - pts[0]
+        det_map = float(np.linalg.det(np.array([e2, e1, e0], float).T))
+        kf = np.arange(3 * (len(es) // 3)).reshape(-1, 3)
+        fo = np.asarray(iso.faces)
+        flip = 1 if np.array_equal(fo, kf) else (-1 if np.array_equal(fo, kf[:, ::-1]) else 0)
+        sk = _kernel_handedness()
+        orient_ok = flip != 0 and sk * np.sign(det_map) * flip > 0
+        ctx.record("%s: orientation = (handedness of the mesher's triangles, %+d) x (sign of the index->coordinate map, %+d) x (faces kept/reversed, %+d) is outward for a field that is high inside"
+                   % (fname, sk, int(np.sign(det_map)), flip), "holds" if orient_ok else "counterexample", nontrivial=True)
+        if not orient_ok:
+            bad.append(fname + " (mesh is wound inside out)")
         same = cap.get("verts_for_props") is iso.vertices or np.array_equal(np.asarray(cap.get("verts_for_props"), dtype=object), np.asarray(iso.vertices, dtype=object))
         ctx.record("%s: surface properties are evaluated at the returned vertices" % fname, "holds" if same else "counterexample", nontrivial=True)
         if r.verdict == "cex" or not same:
